@@ -14,8 +14,8 @@ Mirrors, for ONE `CollectorWorker` (workers share nothing but the clock and the 
   `SendBy` order with unspecified tie order, so the step is an **acceptor**: the list of traces the
   implementation took is an input, checked by `ValidTake`; `takeExpiredRef` is a deterministic
   reference implementation over a sorted-list queue that mirrors the Go loop;
-* `sendExpiredTracesInCache` — send-reason selection, including the `uint32(SpanLimit)` conversion
-  done there (and not in `processSpan`);
+* `sendExpiredTracesInCache` — send-reason selection (`uint(DescendantCount()) > SpanLimit`, the same
+  comparison as in `processSpan`);
 * `sendTracesEarly(bytes)` — traces sorted by `CacheImpact` descending (`sort.Slice` over map
   order: ties unspecified; the impact depends on the wall clock), so again an acceptor: impacts and
   the order of ejected traces are inputs, checked by `ValidEject`;
@@ -49,12 +49,6 @@ def Cfg.effDelay (c : Cfg) : Int :=
 def Cfg.effMax (c : Cfg) : Option Nat :=
   if c.maxExpired = 0 ∨ 2 ^ (Gen.Deadline.maxExpiredIntBits.toNat - 1) ≤ c.maxExpired then none
   else some c.maxExpired
-
-/-- `DescendantCount()` is a `uint32`; `sendExpiredTracesInCache` converts `SpanLimit` to it. -/
-def countModulus : Nat := 2 ^ Gen.Deadline.descendantCountBits.toNat
-
-/-- `spanLimit := uint32(cfg.SpanLimit)` in `sendExpiredTracesInCache`. -/
-def Cfg.limit32 (c : Cfg) : Nat := c.spanLimit % countModulus
 
 /-- A buffered trace (`types.Trace`, the fields the two properties read). -/
 structure Tr where
@@ -154,7 +148,7 @@ instance (s : St) (taken : List Nat) : Decidable (ValidTake s taken) := by
 /-- send reason chosen by `sendExpiredTracesInCache` -/
 def reasonOf (c : Cfg) (tr : Tr) : Reason :=
   if tr.hasRoot then .gotRoot
-  else if 0 < c.limit32 ∧ c.limit32 < tr.count then .spanLimit
+  else if 0 < c.spanLimit ∧ c.spanLimit < tr.count then .spanLimit
   else .expired
 
 def sentOf (s : St) (f : Tr → Reason) (ids : List Nat) : List Sent :=
